@@ -1536,6 +1536,10 @@ class ImportanceNestedSampler(BaseNestedSampler):
         while True:
             if self.reached_tolerance and self.iteration >= self.min_iteration:
                 break
+            # Also check here in case the sampler was resumed from a checkpoint
+            # made at the final iteration
+            if self.iteration >= self.max_iteration:
+                break
 
             self._compute_gradient()
 
